@@ -16,7 +16,7 @@ func init() {
 			"(4) the disruption controller clears stale taints/conditions of nodes that are neither queued nor marked for deletion before any method runs (restart/abort recovery); " +
 			"(5) Queue.ProviderIDToCommand is written only by StartCommand/CompleteCommand under the RWMutex; MarkForDeletion/UnmarkForDeletion have exactly those callers.",
 		NotCovered: []string{"intermediate states between two API calls under a crash are repaired by row (4): that the repair exists and runs first is decided, not that every intermediate state is benign", "provider-side behaviour", "the HasAny check and the insertion are separate critical sections (serialised by the singleton controller, not by the lock)"},
-		Rules: c08Rules,
+		Rules:      c08Rules,
 	})
 }
 
